@@ -294,8 +294,8 @@ def _check_list(ctx, rule, fv, f, rn, lname: str, pv: Poly, pm: Poly) -> None:
     if isinstance(inner, ast.BinOp) and isinstance(inner.op, ast.Sub) and is_name(inner.left, "volume"):
         s = inner.right
         if isinstance(s, ast.Call) and call_fname(s) == "sum" and s.args:
-            raw = app.call.args[0]
-            ok_rem = any(isinstance(x, ast.Name) and x.id == lname for x in ast.walk(raw))
+            # the summed sequence is the list of the previous (equal) steps
+            ok_rem = key(s.args[0]) == key(fv.res.resolve(init.ast.value, init.id)) or key(s.args[0]) == key(fv.res.resolve(ast.Name(id=lname, ctx=ast.Load()), app.node))
     ctx.rep.check(ok_rem, rule, f"{f.qualname}/remainder", "last element = volume - sum(previous elements)", f"the last element is `{show(arg)[:70]}`; expected the remainder volume - sum(previous steps), which makes the steps add up to the request", where=f.where(app.call))
     ctx.rep.check(capped, rule, f"{f.qualname}/remainder-cap", "the remainder is capped by max_volume", "the remainder is returned uncapped: round-off can push it marginally above max_volume (partition_volume(166.5, max_volume=33.3) ended with 33.30000000000001)", where=f.where(app.call))
     # the append happens on every path to the return, exactly once
